@@ -232,10 +232,12 @@ def get_model(
 
         logger.debug('Found "%s" association.', assoc.name)
 
+        # Note: the signature is made up of the asset types the association
+        # is declared for, which the given assets may only be subtypes of.
         assoc_name = lang_classes_factory.get_association_by_signature(
             assoc.name,
-            left_asset.type,
-            right_asset.type
+            assoc.left_field.asset.name,
+            assoc.right_field.asset.name
         )
 
         if not assoc_name:
